@@ -75,3 +75,31 @@ func C14OutIsInput() {
 	vrt.AssertMsg("diagnostic-names-the-file", strings.Contains(stderr, src), stderr)
 	vrt.Reach("end")
 }
+
+// C06CrossConv: a :conv target may be another function being generated in the same run, also from
+// another converter interface of the file, whatever the interfaces' names sort like.
+func C06CrossConv() {
+	var texts []string
+	var err error
+	stderr := vrt.CaptureStderr(func() { texts, err = frontHalf("xconv") })
+	vrt.SlotText("xconv", "S1")
+	vrt.AssertMsg("well-formed-file-accepted", err == nil && len(texts) == 5, stderr)
+	if err != nil {
+		return
+	}
+	all := ""
+	usesToB, usesLocal := false, false
+	for _, t := range texts {
+		all += t
+		if strings.Contains(t, "dst.In = ToB(src.In)") {
+			usesToB = true
+		}
+		if strings.Contains(t, "dst.In = Local(src.In)") {
+			usesLocal = true
+		}
+	}
+	vrt.Assert("generated-converters-are-used", usesToB && usesLocal)
+	v := vrt.TypeCheckFuncs("xconv", all)
+	vrt.AssertMsg("emitted-functions-type-check", v == "", v)
+	vrt.Reach("end")
+}
